@@ -27,6 +27,7 @@ import (
 type TConn struct {
 	No        int
 	Keys      []int16 // api key of every request received, in order
+	Seqs      []int   // broker-wide arrival number of every request received
 	CutAt     int     // -1: never cut
 	FrameLens []int   // length of every response frame produced on this connection
 }
@@ -44,10 +45,12 @@ type TBroker struct {
 	cutAt   int
 	seen    map[int16]int
 	lastLen map[int16]int // length of the last complete response frame per api key
+	seq     int
+	lens    map[int16][]int // lengths of all response frames per api key, in order of arrival
 }
 
 func NewTBroker(topic string) *TBroker {
-	return &TBroker{Topic: topic, FetchMax: 4, seen: map[int16]int{}, lastLen: map[int16]int{},
+	return &TBroker{Topic: topic, FetchMax: 4, seen: map[int16]int{}, lastLen: map[int16]int{}, lens: map[int16][]int{},
 		MaxVer: map[int16]int16{0: 7, 1: 10, 2: 1, 3: 6, 10: 1, 12: 1, 18: 0}}
 }
 
@@ -79,8 +82,19 @@ func (b *TBroker) Conns() []TConn {
 	for i, c := range b.conns {
 		out[i] = *c
 		out[i].Keys = append([]int16(nil), c.Keys...)
+		out[i].Seqs = append([]int(nil), c.Seqs...)
 	}
 	return out
+}
+
+// FrameLenNth is the length of the response frame to the nth request (1-based) with this api key.
+func (b *TBroker) FrameLenNth(key int16, nth int) int {
+	b.mu.Lock()
+	defer b.mu.Unlock()
+	if nth >= 1 && nth <= len(b.lens[key]) {
+		return b.lens[key][nth-1]
+	}
+	return 0
 }
 
 func (b *TBroker) LastFrameLen(key int16) int {
@@ -199,6 +213,9 @@ func (b *TBroker) response(ver int16, id int32, msg protocol.Message) []byte {
 			part = append(part, b.log[off:hi]...)
 		}
 		b.mu.Unlock()
+		if len(part) == 0 {
+			time.Sleep(5 * time.Millisecond) // nothing to deliver: do not let the client spin
+		}
 		w := &W{}
 		errCode := int16(0)
 		if off < 0 || off > end {
@@ -246,6 +263,8 @@ func (b *TBroker) serve(c net.Conn, j *TConn) {
 		key := int16(msg.ApiKey())
 		b.mu.Lock()
 		j.Keys = append(j.Keys, key)
+		b.seq++
+		j.Seqs = append(j.Seqs, b.seq)
 		b.seen[key]++
 		cut := b.cutNth > 0 && key == b.cutKey && b.seen[key] == b.cutNth
 		k := b.cutAt
@@ -256,6 +275,7 @@ func (b *TBroker) serve(c net.Conn, j *TConn) {
 		}
 		b.mu.Lock()
 		j.FrameLens = append(j.FrameLens, len(f))
+		b.lens[key] = append(b.lens[key], len(f))
 		if !cut || k >= len(f) {
 			b.lastLen[key] = len(f)
 		}
